@@ -6,12 +6,14 @@ Require Import Verif.Lib.Wire Verif.Lib.C15Prog Verif.Gen.Facts_C15 Verif.Model.
 
 Section Lock.
   Variable sro : N -> list N.
+  Variable km : key_mode.
+  Hypothesis Hkm : forall k, ckey km k = k.
   Notation wbL := (std_wb Local).
   Notation LPs := (LPs wbL).
   Notation Inv := (Inv sro wbL).
-  Notation stepT := (step_thread sro).
-  Notation doL := (do_label sro LPs RPs).
-  Notation run := (exec sro LPs RPs).
+  Notation stepT := (step_thread sro km).
+  Notation doL := (do_label sro km LPs RPs).
+  Notation run := (exec sro km LPs RPs).
 
   Definition LockInv (st : state) : Prop :=
     (forall i t, threads st i = Some t -> (in_critical t = true <-> lock st = Some i)) /\
@@ -120,7 +122,7 @@ Section Lock.
   Lemma lockinv_run tr st : Inv st -> LockInv st -> LockInv (run tr st).
   Proof.
     revert st. induction tr as [|l tr IH]; intros st I L; simpl; [exact L|].
-    apply IH; [apply (inv_label sro wbL HwbL); exact I|apply lockinv_label; auto].
+    apply IH; [apply (inv_label sro km Hkm wbL HwbL); exact I|apply lockinv_label; auto].
   Qed.
 
   Lemma lockinv_reachable R0 tr : LockInv (run tr (init R0)).
@@ -141,7 +143,7 @@ Section Lock.
     let st := run tr (init R0) in
     lock st = Some i -> lock (run [Step i; Step i] st) = None.
   Proof.
-    intros st El. assert (I : Inv st) by apply (inv_reachable sro wbL HwbL).
+    intros st El. assert (I : Inv st) by apply (inv_reachable sro km Hkm wbL HwbL).
     destruct (lockinv_reachable R0 tr) as [A B]. fold st in A, B.
     destruct (threads st i) as [t|] eqn:Hi; [|exfalso; apply (B i El); exact Hi].
     assert (C : in_critical t = true) by (apply (A i t Hi); exact El).
@@ -181,7 +183,7 @@ Section Lock.
       unfold in_critical in C. rewrite Hc in C. discriminate. }
     assert (U : forall s, threads s j = Some tj -> threads (doL s (Step i)) j = Some tj).
     { intros s Hs. simpl. destruct (threads s i) as [ti|] eqn:Hi; [|exact Hs].
-      destruct (step_generic sro s i ti Hi) as (_ & Ho & _). rewrite Ho by auto. exact Hs. }
+      destruct (step_generic sro km s i ti Hi) as (_ & Ho & _). rewrite Ho by auto. exact Hs. }
     unfold enabled. rewrite Hr.
     change (run [Step i; Step i] st) with (doL (doL st (Step i)) (Step i)).
     rewrite (U _ (U _ Hj)). rewrite Hc. reflexivity.
@@ -223,32 +225,32 @@ End Lock.
 
 (* ---- for the translated programs ---- *)
 Lemma mutual_exclusion : forall sro R0 tr i j ti tj,
-  let st := exec sro lookup_prog register_prog tr (init R0) in
+  let st := exec sro KeyFull lookup_prog register_prog tr (init R0) in
   threads st i = Some ti -> threads st j = Some tj ->
   in_critical ti = true -> in_critical tj = true -> i = j /\ lock st = Some i.
-Proof. rewrite facts_lookup_prog, facts_register_prog. exact mutual_exclusion_std. Qed.
+Proof. rewrite facts_lookup_prog, facts_register_prog. exact (fun sro => mutual_exclusion_std sro KeyFull HkmF). Qed.
 
 Lemma holder_releases : forall sro R0 tr i,
-  let st := exec sro lookup_prog register_prog tr (init R0) in
+  let st := exec sro KeyFull lookup_prog register_prog tr (init R0) in
   lock st = Some i ->
-  lock (exec sro lookup_prog register_prog [Step i; Step i] st) = None /\
+  lock (exec sro KeyFull lookup_prog register_prog [Step i; Step i] st) = None /\
   forall j tj rest, threads st j = Some tj -> cont tj = Lock :: rest ->
-                    enabled (exec sro lookup_prog register_prog [Step i; Step i] st) j = true.
+                    enabled (exec sro KeyFull lookup_prog register_prog [Step i; Step i] st) j = true.
 Proof.
   rewrite facts_lookup_prog, facts_register_prog. intros sro R0 tr i st El. split.
-  - apply holder_releases_std. exact El.
-  - intros j tj rest Hj Hc. eapply waiting_lock_enabled_std; eauto.
+  - apply (holder_releases_std sro KeyFull HkmF). exact El.
+  - intros j tj rest Hj Hc. eapply (waiting_lock_enabled_std sro KeyFull HkmF); eauto.
 Qed.
 
 Lemma no_deadlock : forall sro R0 tr j,
-  let st := exec sro lookup_prog register_prog tr (init R0) in
+  let st := exec sro KeyFull lookup_prog register_prog tr (init R0) in
   unfinished st j = true ->
   exists i t t', enabled st i = true /\ threads st i = Some t /\
-                 threads (do_label sro lookup_prog register_prog st (Step i)) i = Some t' /\
+                 threads (do_label sro KeyFull lookup_prog register_prog st (Step i)) i = Some t' /\
                  tpc t' = S (tpc t).
 Proof.
   rewrite facts_lookup_prog, facts_register_prog. intros sro R0 tr j st Hu.
-  destruct (no_deadlock_std sro R0 tr j Hu) as (i & Hi).
-  destruct (enabled_progress sro _ i Hi) as (t & t' & A & B & C).
+  destruct (no_deadlock_std sro KeyFull HkmF R0 tr j Hu) as (i & Hi).
+  destruct (enabled_progress sro KeyFull _ i Hi) as (t & t' & A & B & C).
   exists i, t, t'. auto.
 Qed.
